@@ -1,7 +1,19 @@
 from specs import KEYS, CHECKS, unit
 
+# keepstore half of C07 (spec_c07.py is loaded first and defines CHECKS['C07']).
 KEYS['keepstore_c07'] = {'pkg': 'services/keepstore'}
 
 CHECKS['C07']['units'].append(
     unit('keepstore', 'keepstore_c07', '^TestVerifC07Keepstore',
          {'shards': 8, 'checks': 200}, {'shards': 16, 'checks': 5000, 'timeout': 1500}))
+
+CHECKS['C07']['rule'] += (
+    '; keepstore unit: one real handler with BlobSigning on and stored blocks of 0..70000 bytes, per case a generated '
+    '(key, TTL, token, Authorization scheme, block, hints around the signature, expiry >=30 s ahead or >=5 s past) and '
+    '~35 GET/HEAD requests (exact reference-signed locator, other/absent/extended token, signature for other key/TTL/block, '
+    'extended expiry, single characters of signature and expiry, structural damage) plus a PUT whose reply locator is '
+    'checked against the reference HMAC and re-presented with the caller\'s and another token')
+CHECKS['C07']['assumptions'] = CHECKS['C07'].get('assumptions', []) + [
+    'keepstore unit: locators with +R hints are not sent (remote proxy path, C19); future expiries are >=30 s away and '
+    'past ones >=5 s back because keepstore reads the wall clock',
+]
